@@ -8,38 +8,57 @@ import Qhttp.Lemmas.C14Base
 namespace Qhttp.C14L
 open Qhttp Copier
 
-def f0 (c : Cfg) : Nat := (rangeFrom c).toNat
+/-- the position of the first byte copied (`rangeFrom` if > 0, else where the source stands) -/
+def f0 (c : Cfg) : Nat := firstPos c
 
 /-- what `rangeOK` means for the quantities the code computes with -/
 structure RangeNF (c : Cfg) : Prop where
-  from_eq : rangeFrom c = (f0 c : Int)
+  from_nonneg : 0 ≤ rangeFrom c
+  from_le : (rangeFrom c).toNat ≤ c.src.length
   f0_le : f0 c ≤ c.src.length
   to_cases : (rangeTo c = -1 ∧ wanted c = c.src.drop (f0 c)) ∨
              (∃ tn : Nat, rangeTo c = (tn : Int) ∧ f0 c ≤ tn ∧
                 wanted c = (c.src.drop (f0 c)).take (tn + 1 - f0 c))
 
+theorem f0_of_pos (c : Cfg) (h : rangeFrom c > 0) : f0 c = (rangeFrom c).toNat := by
+  simp [f0, firstPos, h]
+theorem f0_of_zero (c : Cfg) (h : ¬ rangeFrom c > 0) : f0 c = c.prePos := by
+  simp only [f0, firstPos, h, if_false]
+
 theorem rangeNF_of_ok (c : Cfg) (h : rangeOK c = true) : RangeNF c := by
   unfold rangeOK at h
   cases hr : c.range with
   | none =>
-    refine ⟨?_, ?_, Or.inl ⟨?_, ?_⟩⟩ <;> simp [f0, rangeFrom, rangeTo, wanted, hr]
+    simp only [hr, decide_eq_true_eq] at h
+    have e1 : rangeFrom c = 0 := by simp [rangeFrom, hr]
+    have e0 : f0 c = c.prePos := f0_of_zero c (by rw [e1]; omega)
+    refine ⟨by rw [e1]; omega, by rw [e1]; simp, by rw [e0]; exact h, Or.inl ⟨?_, ?_⟩⟩
+    · simp [rangeTo, hr]
+    · rw [e0]; simp [wanted, hr]
   | some ft =>
     obtain ⟨f, t⟩ := ft
     simp only [hr, Bool.and_eq_true, Bool.or_eq_true, decide_eq_true_eq, beq_iff_eq] at h
     obtain ⟨⟨hf, ht⟩, hl⟩ := h
     have e1 : rangeFrom c = f := by simp [rangeFrom, hr]
     have e2 : rangeTo c = t := by simp [rangeTo, hr]
-    have e0 : f0 c = f.toNat := by simp [f0, e1]
-    refine ⟨by rw [e1, e0]; omega, by rw [e0]; omega, ?_⟩
+    have e0 : f0 c = (if f > 0 then f.toNat else c.prePos) := by simp only [f0, firstPos, e1]
+    have e0' : firstPos c = f0 c := rfl
+    rw [e0'] at ht hl
+    have hfl : f.toNat ≤ c.src.length := by
+      by_cases hp : f > 0
+      · rw [e0, if_pos hp] at hl; exact hl
+      · have : f.toNat = 0 := by omega
+        rw [this]; exact Nat.zero_le _
+    refine ⟨by rw [e1]; omega, by rw [e1]; exact hfl, hl, ?_⟩
     by_cases hm : t = -1
     · left
       refine ⟨by rw [e2, hm], ?_⟩
-      simp [wanted, hr, e0, hm]
-      omega
+      simp only [wanted, hr, ← e0]
+      rw [if_neg (by omega), if_pos (by omega)]
     · right
-      have ht' : t ≥ f := by omega
-      refine ⟨t.toNat, by rw [e2]; omega, by rw [e0]; omega, ?_⟩
-      simp only [wanted, hr, e0]
+      have ht' : t ≥ (f0 c : Int) := by omega
+      refine ⟨t.toNat, by rw [e2]; omega, by omega, ?_⟩
+      simp only [wanted, hr, ← e0]
       rw [if_neg (by omega), if_neg (by omega), if_neg (by omega)]
 
 theorem wanted_len_le (c : Cfg) (h : RangeNF c) : (wanted c).length ≤ c.src.length - f0 c := by
